@@ -12,12 +12,13 @@ import (
 
 // C15: the cosmetic engine returns exactly the applicable, non-excepted selectors.
 
-var c15Domains = []string{"example.org", "sub.example.org", "example.com", "a.com", "b.a.com", "google.*", "example.*", "a.co.uk", "xa.com", "evil.org"}
+var c15Domains = []string{"example.org", "sub.example.org", "example.com", "a.com", "b.a.com", "google.*", "example.*", "a.co.uk", "xa.com", "evil.org", "org", "com", "co.uk", "uk", "maps.example.*", "www.google.*", "b.a.*"}
 var c15Selectors = []string{".banner", "#ad", ".ad-box", "div[id^=\"ads\"]", ".sponsored", ".x"}
 var c15Hostnames = []string{
 	"example.org", "sub.example.org", "deep.sub.example.org", "xexample.org", "example.org.evil.org", "example.com", "www.example.com",
 	"a.com", "b.a.com", "c.b.a.com", "xa.com", "google.com", "www.google.co.uk", "google.evil.xgoogle.com", "xgoogle.com", "example.de",
 	"a.co.uk", "b.a.co.uk", "evil.org", "unrelated.net", "org", "localhost",
+	"maps.example.com", "www.maps.example.co.uk", "xmaps.example.com", "maps.example.evil.org", "www.google.de", "b.a.org", "c.b.a.co.uk",
 }
 
 func c15Rule(c *core.Ctx) string {
@@ -176,7 +177,7 @@ func init() {
 	core.Register(&core.Prop{
 		ID:    "C15",
 		Level: "exploration",
-		Rule: "per case a list of 1..10 element-hiding rules and exceptions (generic, one or many domains, negated domains, wildcard TLD, a domain both permitted and restricted, duplicated selectors) x 22 hostnames (listed domain, subdomain, deeper subdomain, sibling, label-boundary neighbour, unrelated) x all 8 flag combinations, through CosmeticEngine.Match and Engine.GetCosmeticResult; " +
+		Rule: "per case a list of 1..10 element-hiding rules and exceptions (generic, one or many domains, negated domains, wildcard TLD, a domain both permitted and restricted, duplicated selectors) x 29 hostnames (listed domain, subdomain, deeper subdomain, sibling, label-boundary neighbour, unrelated) x all 8 flag combinations, through CosmeticEngine.Match and Engine.GetCosmeticResult; " +
 			"oracle = the reference of the statement computed with CosmeticRule.Match over all rules, compared per bucket as sets; non-trivial = (list, hostname) with at least one expected selector; distinct by (hostname, list)",
 		Assumptions: []string{
 			"CosmeticRule.Match is the definition of 'applies to the hostname' (its domain semantics are checked by C04 through the shared helper)",
